@@ -639,6 +639,11 @@ class C20(Check):
             if call == 'metaScan':
                 return self.plan_metascan(E, w)
             if call == 'tryEncodings':
+                try:
+                    import chardet      # noqa: F401
+                    return {'lines': [], 'impl': [], 'res': None, 'skip': True}     # the trial loop does not run
+                except ImportError:
+                    pass
                 b = w['doc'].encode('latin-1')
                 try:
                     b.decode('utf-8')
@@ -801,6 +806,8 @@ class C20(Check):
         elif call == 'metaScan':
             self.oracle_meta(ctx, w, w['events'], pl['res'], case=True)
         elif call == 'tryEncodings':
+            if pl.get('skip'):
+                return
             b = w['doc'].encode('latin-1')
             want = S.spec_try(b)
             ctx.case(key=('try', w['doc']), nontrivial=not b.isascii(), kind='try:' + want, sample={'bytes': w['doc'], 'impl': list(pl['res'])})
